@@ -67,7 +67,7 @@ PROPS = {
              "vobj or str elements) with make/mutate/query/dup/done+re-init/del; allocator policies incl. garbage fill, immediate address reuse and far-apart placement; "
              "after dup: distinct object, same class, type() equal, observer equal; after every op: no other object's observation changed (independence), and "
              "reflexive/antisymmetric/transitive/NULL-first comparison over all same-kind pairs of the pool; distinct = distinct trace hash; non-trivial = >= 3 ops",
-             probes=["dup", "comp_pair", "comp_null_first", "comp_of_equal_values", "extended_mutator", "tok_quote_characters_changed", "stream_constructor_ok",
+             probes=["dup", "class_checked", "comp_pair", "comp_null_first", "comp_of_equal_values", "extended_mutator", "tok_quote_characters_changed", "stream_constructor_ok",
                      "empty_container", "list_with_holes", "pair_without_value", "tok_evaluated", "regexp_compiled", "done", "del"]),
     "C06": P(["asan", "asanz"], 30, 900,
              "plans = seeded programs (4..60 ops) over the whole object API (16 kinds as in C05): create, fill, query (everything handed out is deleted by the caller), "
@@ -88,7 +88,7 @@ PROPS = {
              "plans = seeded map histories (3..40 ops over 2 slots: set, set via pair, remove, has_value, get_keys/values/pairs into NULL or an existing list, dup, del; "
              "key ranges 3 and 9 so overwrites and removals of min/max/only key are common; caller key/value objects mutated and deleted right after set); "
              "same plan on the three map classes; after every op: structure walk, count, iterator, get/has_key for every key of the universe; distinct = distinct trace hash; non-trivial = >= 3 ops",
-             probes=["overwrite_existing", "remove_min", "remove_max", "remove_only", "caller_key_mutated_after_set", "set_via_pair", "get_list_into_existing", "dup_of_empty_container",
+             probes=["overwrite_existing", "remove_min", "remove_max", "remove_only", "caller_key_mutated_after_set", "set_via_pair", "set_key_as_its_own_value", "get_list_into_existing", "dup_of_empty_container",
                      "set_own_value", "probe_is_own_element", "iterator_abandoned_midway", "get_list_into_linked_list", "get_list_into_empty_list"]),
     "C04": P(["plain", "plainz"], 30, 900,
              "plans = seeded vector histories (3..40 ops over 2 slots: insert, remove (also with the stored element itself as the probe), find, contains with present/absent/below-min/above-max probes, abandoned and exhausted iterators, dup, del; keys 0..7, one plan in eight prefilled with 30..100 elements over keys 0..47); after every step a sweep of find/contains over every key; "
